@@ -86,7 +86,16 @@ func (p *poller) addConn(c *Conn) error {
 		_ = c.closeWithError(err)
 		return err
 	}
+	// a connection closed by its owner before it is added is refused, nothing
+	// has been announced for it; one closed from now on has its poller set
+	// and gets its close notification.
+	c.mux.Lock()
+	if c.closed {
+		c.mux.Unlock()
+		return net.ErrClosed
+	}
 	c.p = p
+	c.mux.Unlock()
 	if c.typ != ConnTypeUDPServer {
 		p.g.onOpen(c)
 	} else {
@@ -97,9 +106,17 @@ func (p *poller) addConn(c *Conn) error {
 	// in the table before Stop takes its snapshot, or it sees the flag here.
 	p.g.mux.Lock()
 	stopped := p.g.shutdown
+	closed := false
 	if !stopped {
-		c.gen = atomic.AddInt32(&connGen, 1)
-		p.g.connsUnix[fd] = c
+		// a connection closed meanwhile (by the open handler, or by its
+		// owner) has gone through its close path: it stays out of the table.
+		c.mux.Lock()
+		closed = c.closed
+		if !closed {
+			c.gen = atomic.AddInt32(&connGen, 1)
+			p.g.connsUnix[fd] = c
+		}
+		c.mux.Unlock()
 	}
 	p.g.mux.Unlock()
 	if stopped {
@@ -107,20 +124,29 @@ func (p *poller) addConn(c *Conn) error {
 		_ = c.closeWithError(err)
 		return err
 	}
-	err := p.addRead(fd)
-	if err != nil {
-		p.g.connsUnix[fd] = nil
-		_ = c.closeWithError(err)
-		return err
+	if closed {
+		return net.ErrClosed
 	}
+	// The descriptor is registered under the lock of the connection: a Close
+	// that comes now finds a registered connection, its descriptor number
+	// cannot have been given to another socket.
+	c.mux.Lock()
+	if c.closed {
+		c.mux.Unlock()
+		return net.ErrClosed
+	}
+	err := p.addRead(fd)
 	// Data written before the fd was registered (e.g. in the OnOpen handler)
 	// may have been cached, but the writing event could not be set then.
-	c.mux.Lock()
-	if !c.closed && len(c.writeList) > 0 {
+	if err == nil && len(c.writeList) > 0 {
 		c.isWAdded = true
 		_ = p.modWrite(fd)
 	}
 	c.mux.Unlock()
+	if err != nil {
+		p.g.connsUnix[fd] = nil
+		_ = c.closeWithError(err)
+	}
 	return err
 }
 
